@@ -132,3 +132,24 @@ func ZZ_C15_k12_equals_specification_with_customisation() {
 	_, _ = s.Write(msg)
 	zzAssert(zzBytesEq(zzK12Out(&s), zzK12Ref(msg, c, 33)), "K12(M, C) = specification")
 }
+
+// multi-lane absorption (2 and 4 leaves at a time, as selected on SIMD machines; the lane
+// permutations are the scalar fallback over the same uninterpreted Keccak-p): K12 equals the
+// specification for long single writes covering one, two and three groups of lanes, and for the same
+// input split across two writes
+//
+//zz: prop=C15 also=C14 tier=quick backend=bv use=keccakuf,x4init timeout=600 budget=1500
+func ZZ_C15_k12_lanes_equal_specification() {
+	lanes := byte(zzPick("lanes", 2, 4))
+	n := zzPick("msglen", 8192*3+5, 8192*5, 8192*9-1, 8192*9, 8192*10+17)
+	msg := make([]byte, n)
+	zzFill("msg", msg)
+	want := zzK12Ref(msg, []byte{}, 33)
+	s := newDraft10([]byte{}, lanes)
+	_, _ = s.Write(msg)
+	zzAssert(zzBytesEq(zzK12Out(&s), want), "K12 with 2/4 lanes, one write = specification")
+	t := newDraft10([]byte{}, lanes)
+	_, _ = t.Write(msg[:8192*2+100])
+	_, _ = t.Write(msg[8192*2+100:])
+	zzAssert(zzBytesEq(zzK12Out(&t), want), "K12 with 2/4 lanes, two writes = specification")
+}
